@@ -31,7 +31,12 @@ MANIFEST = dict(
          "|a-b| <= atol + rtol*|b|); symmetry under exchange of the two points is decided symbolically; a "
          "per-point mask must not index the component axis of a stacked array; rank provenance from the raw arguments: single-argument "
          "where()/nonzero() needs a condition reached by ndmin=1-normalised values and .any()/.all() a numpy-typed receiver when the "
-         "inputs are scalars (boolean-mask subscripts work for every rank).",
+         "inputs are scalars (boolean-mask subscripts work for every rank); a boolean option of a separation function (getangle) does not "
+         "change the separation: the function is evaluated for both values and the separation components must be the same decision list "
+         "(a missing exact-zero override or a constant factor is a violation); dtype provenance from the coordinate arguments over a "
+         "five-point domain (forced float64 / forced lower / the caller's dtype / python number / unknown): every rounding ufunc and "
+         "arithmetic operator the separation is computed with must work on values forced to float64, not on values that still carry "
+         "the caller's dtype (float32 coordinates would be converted and run through sin/cos in single precision).",
     note="Not decided: the 1e-11 / 2e-6 degree accuracy beyond the conditioning rule (a structural necessary condition), finiteness under rounding. Trusted: sympy's normaliser (a failure to "
          "normalise two equal forms would be a false alarm; benign-twin self-tests guard the idioms in use), numpy element-wise semantics.",
     technique="static analysis: abstract interpretation over a symbolic term domain with algebraic normal-form comparison (sympy as normaliser), AST rank/shape rules",
@@ -51,7 +56,7 @@ def xyz(ra, dec, units):
 
 # rules that keep their verdict however the code is laid out (decided by term equality, effect analysis or dominance over
 # resolved calls); every other rule of this check is a template rule (vcheck.core.Check.obt)
-SEMANTIC = ('R08.2', 'R08.4', 'R08.5', 'R08.6', 'R08.7', 'R08.8', 'R08.9', 'R08.10')
+SEMANTIC = ('R08.2', 'R08.4', 'R08.5', 'R08.6', 'R08.7', 'R08.8', 'R08.9', 'R08.10', 'R08.11', 'R08.12')
 
 
 def source_repo():
@@ -650,6 +655,9 @@ def run(chk):
                 chk.ob("R08.6", tag + "::mask-on-point-axis", True, fi.where(), "per-point masks index per-point axes only")
             r = reduction_rule(chk, fi, tag, r, (ra1, dec1, ra2, dec2), uin)
             check_chord(chk, fi, tag, r, (ra1, dec1, ra2, dec2), uin, uout)
+            if uin == uout:
+                option_invariance_rule(chk, se, fi, tag, {"ra1": ra1, "dec1": dec1, "ra2": ra2, "dec2": dec2, "units": (uin, uout)}, {}, r,
+                                       (ra1, dec1, ra2, dec2), uin)
 
     # ---- cosine-based separation -----------------------------------------------
     fi = repo.func(CO + "gcirc")
@@ -657,6 +665,13 @@ def run(chk):
     r = se.run(fi, {"ra1deg": ra1, "dec1deg": dec1, "ra2deg": ra2, "dec2deg": dec2}, {"getangle": False})
     r = reduction_rule(chk, fi, "gcirc", r, (ra1, dec1, ra2, dec2), "deg")
     check_cosine(chk, fi, r, (ra1, dec1, ra2, dec2))
+    option_invariance_rule(chk, se, fi, "gcirc", {"ra1deg": ra1, "dec1deg": dec1, "ra2deg": ra2, "dec2deg": dec2}, {"getangle": False}, r,
+                           (ra1, dec1, ra2, dec2), "deg")
+
+    # ---- double precision whatever the caller's dtype -----------------------------
+    precision_rule(chk, repo, repo.func(CO + "sphdist"), "sphdist[units_in=deg]", ["ra1", "dec1", "ra2", "dec2"], {"units": ("deg", "deg")})
+    precision_rule(chk, repo, repo.func(CO + "sphdist"), "sphdist[units_in=rad]", ["ra1", "dec1", "ra2", "dec2"], {"units": ("rad", "rad")})
+    precision_rule(chk, repo, repo.func(CO + "gcirc"), "gcirc", ["ra1deg", "dec1deg", "ra2deg", "dec2deg"], {"getangle": None})
 
     # ---- scalar / array uniformity ---------------------------------------------
     for q in (CO + "sphdist", CO + "gcirc"):
@@ -759,8 +774,9 @@ def _strip_reductions(e, status, syms):
     return e
 
 
-def reduction_rule(chk, fi, tag, r, syms, uin):
-    """judges every Mod(angle, period) of the result term; returns the term the other rules look at"""
+def reduction_rule(chk, fi, tag, r, syms, uin, quiet=False):
+    """judges every Mod(angle, period) of the result term; returns the term the other rules look at (quiet: the term only, for a
+    second evaluation of a function whose reductions have been judged)"""
     if not isinstance(r, sp.Basic):
         return r
     mods = sorted((M for M in r.atoms(sp.Mod) if M.args[0].has(*syms)), key=str)
@@ -775,6 +791,8 @@ def reduction_rule(chk, fi, tag, r, syms, uin):
         if ok is not None:
             status[M] = ok
         unit = "%s given in %s" % (u, uin) if c == 1 else "%s (input in %s scaled by %s)" % (u, uin, c)
+        if quiet:
+            continue
         chk.ob("R08.9", "%s::reduced-by-whole-turns::%s" % (tag, M), ok, fi.where(),
                "an angle is only ever reduced modulo a whole number of turns in its own unit: `%s` reduces %s, where one turn is %s%s"
                % (M, unit, "not determined" if c is None else c * turn,
@@ -1489,6 +1507,701 @@ def check_cosine(chk, fi, r, syms):
         chk.ob("R08.7", tag + "::symmetric", eq, fi.where(), "symmetric under exchange of the two points")
     chk.ob("R08.1", tag + "::radians-out", ok and not body.has(sp.pi) or (ok and body.args[0].has(sp.pi) and body.func == sp.acos), fi.where(),
            "documented units: degrees in, radians out (no conversion factor on the result)")
+
+
+# --------------------------------------------------------------------------
+# R08.11 the separation does not depend on an option that is not about it
+# --------------------------------------------------------------------------
+# Every clause of the property is about "the separation the function returns", whatever else the caller asks for along with it (the
+# position angle of gcirc, any on/off option added later).  A boolean option of a separation function therefore must not change the
+# separation: the function is evaluated over the term domain for the other value of the option as well and the separation component
+# of that result (the result itself, or the first element of a tuple: `dis, theta`) must be the same decision list -- same pieces,
+# same selecting conditions, equal values -- as the one every other rule of this check has judged.  Positively different: the
+# judged result has the exact-zero piece for identical inputs with priority over every other piece and the variant has not (identical
+# inputs then give acos of a rounded 1, ~1e-8 rad, not 0), or a piece differs by a constant factor (another unit).  Any other difference
+# of form is not decided (no verdict).
+
+def _same_decision_list(lv0, lv1):
+    if len(lv0) != len(lv1):
+        return False
+    for (v0, p0), (v1, p1) in zip(lv0, lv1):
+        if p0 != p1:
+            return False
+        if not (isinstance(v0, sp.Basic) and isinstance(v1, sp.Basic)) or not symx.equal(v0, v1)[0]:
+            return False
+    return True
+
+
+def option_invariance_rule(chk, se, fi, tag, args, base_flags, r0, syms, uin):
+    if not isinstance(r0, sp.Basic):
+        return
+    lv0 = leaves(r0, syms)
+    for p in fi.params:
+        dflt = fi.defaults.get(p)
+        if p.startswith("*") or p in args or not (isinstance(dflt, ast.Constant) and isinstance(dflt.value, bool)):
+            continue
+        base = base_flags.get(p, dflt.value)
+        val = not base
+        key = "%s::same-separation-for-%s=%s" % (tag, p, val)
+        what = "the separation returned for %s=%s is the one returned for %s=%s" % (p, val, p, base)
+        try:
+            fl = dict(base_flags)
+            fl[p] = val
+            r1 = se.run(fi, dict(args), fl)
+        except symx.Unsupported as e:
+            chk.ob("R08.11", key, None, fi.where(), "%s: the function is not evaluated for %s=%s (%s)" % (what, p, val, str(e)[:120]))
+            continue
+        if isinstance(r1, (tuple, list)) and len(r1) >= 1:
+            r1 = r1[0]
+        if not isinstance(r1, sp.Basic):
+            chk.ob("R08.11", key, None, fi.where(), "%s: the result for %s=%s is not a term: %r" % (what, p, val, r1))
+            continue
+        r1 = reduction_rule(chk, fi, tag, r1, syms, uin, quiet=True)
+        lv1 = leaves(r1, syms)
+        if _same_decision_list(lv0, lv1):
+            chk.ob("R08.11", key, True, fi.where(), what)
+            continue
+        ok, why = None, "the two results differ in form (%d / %d pieces): not decided" % (len(lv0), len(lv1))
+        z0, _ = split_identity(drop_shortcuts(lv0, syms), syms)
+        z1, _ = split_identity(drop_shortcuts(lv1, syms), syms)
+        has0 = bool(z0) and _has_priority(z0[0], syms)
+        has1 = bool(z1) and _has_priority(z1[0], syms)
+        if has0 and not has1:
+            ok = False
+            why = ("for %s=%s identical inputs are forced to exactly 0 (piece selected by `%s`), for %s=%s %s: the value returned there is "
+                   "`%s`, the inverse cosine / sine of a rounded quantity (~1e-8 rad for one point in five), not 0, and the separation "
+                   "depends on the option" % (p, base, z0[0][2][-1][0], p, val,
+                                              "that piece is missing (the function returns before the override, or skips it)" if not z1
+                                              else "another piece has priority over it", str(lv1[-1][0])[:120]))
+        elif len(lv0) == len(lv1) and all(p0 == p1 for (_, p0), (_, p1) in zip(lv0, lv1)):
+            for (v0, _), (v1, _) in zip(lv0, lv1):
+                try:
+                    q = sp.simplify(v1 / v0) if v0 != 0 else None
+                except Exception:
+                    q = None
+                if q is not None and q.is_number and q.is_finite and q != 1:
+                    ok, why = False, "the piece `%s` is returned multiplied by %s for %s=%s" % (str(v0)[:100], q, p, val)
+                    break
+        chk.ob("R08.11", key, ok, fi.where(), "%s: %s" % (what, why))
+
+
+# --------------------------------------------------------------------------
+# R08.12 double precision whatever the dtype of the caller's arrays: dtype provenance by abstract interpretation
+# --------------------------------------------------------------------------
+# "The true great-circle angle to 1e-11 degree" is about the points the caller passes: a float32 (float16) coordinate is exactly a
+# double, the pair it names has a true separation, and the answer is owed to 1e-11 degree.  numpy computes a ufunc in the dtype of
+# its array operands (python numbers do not promote an array), so a conversion factor, sin / cos or a root applied to a value that
+# still has the caller's dtype is evaluated in single precision (error ~1e-5 degree): the coordinates must have been forced to
+# float64 -- np.array(.., dtype='f8'), .astype(float), np.float64(..), a helper's dtype parameter left at its 'f8' default -- before
+# the first rounding operation.  Decided for all inputs by a forward data flow over a five-point dtype domain, from the raw
+# arguments through assignments, unpacking, branches (the units option pinned), loops and calls into package helpers:
+#   F64  forced to (at least) double precision, whatever the caller passes
+#   LOW  forced below double precision (dtype='f4')
+#   IN   the caller's dtype: reached from a coordinate argument through dtype-preserving operations only (atleast_1d, asarray / array
+#        without dtype, copy, indexing, reshaping, unary minus, arithmetic with python numbers or other such values)
+#   PY   a python number (exact double; does not promote an array)
+#   None not known (any construct outside the table): no verdict from the operations it reaches
+# Judged operations: the rounding ufuncs (trigonometric and inverse, deg2rad / rad2deg / radians / degrees, sqrt, exp, log, hypot,
+# power, add .. divide) and the arithmetic operators + - * / **.  An operation is a violation only when its computation dtype is
+# IN or LOW on every path that reaches it (a merge of IN with anything else is "not known").  Comparisons, masks, indexing, %,
+# copies are exact in any dtype and are not judged; math.* converts to double.
+
+_F64_NAMES = {"f8", "d", "float64", "double", "float_", "float", "<f8", "=f8", ">f8", "|f8", "g", "f16", "float128", "longdouble", "longfloat"}
+_LOW_NAMES = {"f4", "f", "float32", "single", "<f4", "=f4", ">f4", "f2", "e", "float16", "half", "<f2", "=f2", ">f2"}
+_DT_ROUNDING = {"sin", "cos", "tan", "arcsin", "arccos", "arctan", "arctan2", "deg2rad", "rad2deg", "radians", "degrees", "sqrt", "cbrt",
+                "exp", "expm1", "log", "log10", "log2", "log1p", "hypot", "sinh", "cosh", "tanh", "arcsinh", "arccosh", "arctanh", "power",
+                "float_power", "square", "add", "subtract", "multiply", "divide", "true_divide", "reciprocal", "asin", "acos", "atan", "atan2"}
+_DT_NIN2 = {"arctan2", "hypot", "power", "float_power", "add", "subtract", "multiply", "divide", "true_divide", "atan2"}
+_DT_CONVERT = {"array", "asarray", "asanyarray", "ascontiguousarray", "asfortranarray", "require"}
+_DT_KEEP = {"atleast_1d", "atleast_2d", "atleast_3d", "copy", "ravel", "squeeze", "reshape", "transpose", "broadcast_to", "negative", "abs",
+            "absolute", "fabs", "positive", "flip", "roll", "take", "compress", "extract", "sort", "unique", "expand_dims", "moveaxis",
+            "swapaxes", "real", "conj", "sum", "cumsum", "amin", "amax", "min", "max", "nan_to_num"}
+_DT_PROMOTE = {"clip", "minimum", "maximum", "fmin", "fmax", "cross", "dot", "inner", "mod", "fmod", "remainder", "copysign"}
+_DT_SEQ = {"stack", "vstack", "hstack", "dstack", "concatenate", "column_stack"}
+_DT_KEEP_METHODS = {"copy", "ravel", "flatten", "reshape", "squeeze", "transpose", "clip", "conj", "round", "sum", "min", "max", "cumsum",
+                    "take", "compress", "repeat", "swapaxes"}
+_NOCONST = object()
+_REPORTED = "<result of a reported operation>"
+
+
+class _D:
+    """abstract value of the dtype domain: dt (see above), const (a python constant: option strings, flags, None), elts (a python
+    sequence of values), src (the coordinate arguments the value was derived from)"""
+    __slots__ = ("dt", "const", "elts", "src")
+
+    def __init__(self, dt=None, const=_NOCONST, elts=None, src=frozenset()):
+        self.dt, self.const, self.elts, self.src = dt, const, elts, src
+
+    def __repr__(self):
+        return "D(%s)" % (self.elts if self.elts is not None else (self.dt if self.const is _NOCONST else repr(self.const)))
+
+
+_DUNK = _D()
+
+
+def _dt_promote(vals):
+    """dtype of an element-wise combination of the values (numpy >= 2 promotion: python numbers are weak)"""
+    dts, src = [], frozenset()
+    for v in vals:
+        if v.elts is not None:
+            w = _dt_promote(v.elts) if v.elts else _DUNK
+            w = _D("F64" if w.dt == "PY" else w.dt, src=w.src)      # a sequence of python numbers becomes a float64 / int64 array
+            v = w
+        dts.append(v.dt)
+        src |= v.src
+    if "F64" in dts:
+        return _D("F64", src=src)
+    if None in dts or not dts:
+        return _D(None, src=src)
+    if "IN" in dts:
+        return _D("IN", src=src)
+    if "LOW" in dts:
+        return _D("LOW", src=src)
+    return _D("PY", src=src)
+
+
+def _dt_join(a, b):
+    """control-flow merge: agreement or "not known" """
+    if a is None:
+        return b
+    if b is None:
+        return a
+    if a.elts is not None or b.elts is not None:
+        if a.elts is not None and b.elts is not None and len(a.elts) == len(b.elts):
+            return _D(elts=[_dt_join(x, y) for x, y in zip(a.elts, b.elts)])
+        return _DUNK
+    if a.const is not _NOCONST and b.const is not _NOCONST and type(a.const) is type(b.const) and a.const == b.const:
+        return a
+    if a.dt == b.dt:
+        return _D(a.dt, src=a.src | b.src)
+    if {a.dt, b.dt} == {"F64", "PY"}:
+        return _D("F64", src=a.src | b.src)
+    return _D(None, src=a.src | b.src)
+
+
+class DtypeEval:
+    def __init__(self, repo, max_depth=4):
+        self.repo, self.max_depth = repo, max_depth
+        self.sites = {}             # id(node) -> dict(fi, node, comp)
+        self.stack = []
+        self._cstack = []
+
+    # ---- functions -----------------------------------------------------------------------------------------------------------
+    def run(self, fi, binds):
+        env = {}
+        for p in fi.params:
+            pn = p.lstrip("*")
+            if pn in binds:
+                env[pn] = binds[pn]
+            elif p.startswith("*"):
+                env[pn] = _DUNK
+            elif pn in fi.defaults:
+                env[pn] = self.ev(fi.defaults[pn], {}, fi)
+            else:
+                env[pn] = _DUNK
+        rets = []
+        self.stack.append(fi.qualname)
+        try:
+            self.block(fi.node.body, env, fi, rets)
+        finally:
+            self.stack.pop()
+        out = None
+        for r in rets:
+            out = _dt_join(out, r)
+        return out if out is not None else _D(const=None)
+
+    # ---- statements ----------------------------------------------------------------------------------------------------------
+    def block(self, stmts, env, fi, rets):
+        for st in stmts:
+            if self.stmt(st, env, fi, rets):
+                return True
+        return False
+
+    def _merge(self, env, branches):
+        live = [e for e, term in branches if not term]
+        if not live:
+            return True
+        keys = set()
+        for e in live:
+            keys |= set(e)
+        new = {}
+        for k in keys:
+            v = None
+            for e in live:
+                v = _dt_join(v, e.get(k, _DUNK))
+            new[k] = v
+        env.clear()
+        env.update(new)
+        return False
+
+    def truth(self, t, env, fi):
+        """True / False when the test is decided by constants (pinned options), else None"""
+        if isinstance(t, ast.UnaryOp) and isinstance(t.op, ast.Not):
+            r = self.truth(t.operand, env, fi)
+            return None if r is None else not r
+        if isinstance(t, ast.BoolOp):
+            rs = [self.truth(x, env, fi) for x in t.values]
+            if isinstance(t.op, ast.And):
+                return False if any(r is False for r in rs) else (True if all(r is True for r in rs) else None)
+            return True if any(r is True for r in rs) else (False if all(r is False for r in rs) else None)
+        if isinstance(t, ast.Compare) and len(t.ops) == 1:
+            a, b = self.ev(t.left, env, fi), self.ev(t.comparators[0], env, fi)
+            op = t.ops[0]
+            if isinstance(op, (ast.In, ast.NotIn)) and a.const is not _NOCONST and b.elts is not None \
+                    and all(x.const is not _NOCONST for x in b.elts):
+                r = any(type(x.const) is type(a.const) and x.const == a.const for x in b.elts)
+                return r if isinstance(op, ast.In) else not r
+            if a.const is _NOCONST or b.const is _NOCONST:
+                return None
+            if isinstance(a.const, float) or isinstance(b.const, float):
+                return None
+            if isinstance(op, (ast.Eq, ast.Is)):
+                return type(a.const) is type(b.const) and a.const == b.const
+            if isinstance(op, (ast.NotEq, ast.IsNot)):
+                return not (type(a.const) is type(b.const) and a.const == b.const)
+            return None
+        v = self.ev(t, env, fi)
+        if v.const is not _NOCONST and isinstance(v.const, (bool, str, type(None))):
+            return bool(v.const)
+        return None
+
+    def stmt(self, st, env, fi, rets):
+        if isinstance(st, ast.Assign):
+            v = self.ev(st.value, env, fi)
+            for t in st.targets:
+                self.bind(t, v, env, fi)
+            return False
+        if isinstance(st, ast.AnnAssign):
+            if st.value is not None:
+                self.bind(st.target, self.ev(st.value, env, fi), env, fi)
+            return False
+        if isinstance(st, ast.AugAssign):
+            v = self.ev(st.value, env, fi)
+            cur = self.ev(st.target, env, fi) if isinstance(st.target, (ast.Name, ast.Subscript)) else _DUNK
+            if isinstance(st.op, (ast.Add, ast.Sub, ast.Mult, ast.Div, ast.Pow)):
+                res = _dt_promote([cur, v])
+                if cur.elts is None and cur.dt in ("IN", "LOW", "F64"):
+                    res = _D(cur.dt, src=cur.src | v.src)      # an array is updated in place: it keeps its dtype
+                res = self._site(fi, st, res)
+                if isinstance(st.target, ast.Name):
+                    env[st.target.id] = res
+            elif isinstance(st.target, ast.Name):
+                env[st.target.id] = _dt_promote([cur, v]) if isinstance(st.op, (ast.Mod, ast.FloorDiv)) else _DUNK
+            return False
+        if isinstance(st, ast.Expr):
+            self.ev(st.value, env, fi)
+            return False
+        if isinstance(st, ast.Return):
+            rets.append(self.ev(st.value, env, fi) if st.value is not None else _D(const=None))
+            return True
+        if isinstance(st, ast.Raise):
+            return True
+        if isinstance(st, ast.If):
+            r = self.truth(st.test, env, fi)
+            if r is True:
+                return self.block(st.body, env, fi, rets)
+            if r is False:
+                return self.block(st.orelse, env, fi, rets)
+            e1, e2 = dict(env), dict(env)
+            t1 = self.block(st.body, e1, fi, rets)
+            t2 = self.block(st.orelse, e2, fi, rets)
+            return self._merge(env, [(e1, t1), (e2, t2)])
+        if isinstance(st, ast.For):
+            it = self.ev(st.iter, env, fi)
+            if it.elts is not None and 0 < len(it.elts) <= 16:
+                for x in it.elts:
+                    self.bind(st.target, x, env, fi)
+                    if self.block(st.body, env, fi, rets):
+                        break
+            else:
+                for _ in range(2):
+                    e1 = dict(env)
+                    self.bind(st.target, _D(it.dt, src=it.src) if it.elts is None else _DUNK, e1, fi)
+                    t1 = self.block(st.body, e1, fi, rets)
+                    self._merge(env, [(e1, t1), (dict(env), False)])
+            self.block(st.orelse, env, fi, rets)
+            return False
+        if isinstance(st, ast.While):
+            for _ in range(2):
+                e1 = dict(env)
+                self.ev(st.test, e1, fi)
+                t1 = self.block(st.body, e1, fi, rets)
+                self._merge(env, [(e1, t1), (dict(env), False)])
+            return False
+        if isinstance(st, ast.With):
+            for it in st.items:
+                self.ev(it.context_expr, env, fi)
+                if it.optional_vars is not None:
+                    self.bind(it.optional_vars, _DUNK, env, fi)
+            return self.block(st.body, env, fi, rets)
+        if isinstance(st, ast.Try):
+            pre = dict(env)
+            e0 = dict(env)
+            t0 = self.block(st.body, e0, fi, rets)
+            if not t0:
+                t0 = self.block(st.orelse, e0, fi, rets)
+            branches = [(e0, t0)]
+            for h in st.handlers:
+                eh = dict(pre)
+                self._merge(eh, [(dict(pre), False), (dict(e0), False)])
+                if h.name:
+                    eh[h.name] = _DUNK
+                branches.append((eh, self.block(h.body, eh, fi, rets)))
+            term = self._merge(env, branches)
+            if st.finalbody:
+                term = self.block(st.finalbody, env, fi, rets) or term
+            return term
+        if isinstance(st, (ast.FunctionDef, ast.AsyncFunctionDef, ast.ClassDef)):
+            env[st.name] = _DUNK
+            return False
+        if isinstance(st, (ast.Import, ast.ImportFrom)):
+            for al in st.names:
+                env[(al.asname or al.name).split(".")[0]] = _DUNK
+            return False
+        if isinstance(st, ast.Delete):
+            return False
+        return False
+
+    def _element(self, v):
+        if v.elts is not None:
+            out = None
+            for x in v.elts:
+                out = _dt_join(out, x)
+            return out if out is not None else _DUNK
+        return _D(v.dt, src=v.src)          # an element / a row of an array has the array's dtype
+
+    def bind(self, t, v, env, fi):
+        if isinstance(t, ast.Name):
+            env[t.id] = v
+        elif isinstance(t, (ast.Tuple, ast.List)):
+            if v.elts is not None and len(v.elts) == len(t.elts) and not any(isinstance(e, ast.Starred) for e in t.elts):
+                for e, x in zip(t.elts, v.elts):
+                    self.bind(e, x, env, fi)
+            else:
+                x = self._element(v) if v.elts is None or v.elts else _DUNK
+                for e in t.elts:
+                    self.bind(e.value if isinstance(e, ast.Starred) else e, _DUNK if isinstance(e, ast.Starred) else x, env, fi)
+        elif isinstance(t, ast.Subscript):
+            self.ev(t.value, env, fi)           # x[mask] = v: x keeps its dtype
+        elif isinstance(t, ast.Starred):
+            self.bind(t.value, _DUNK, env, fi)
+
+    # ---- dtype expressions ---------------------------------------------------------------------------------------------------
+    def dtype_of(self, node, env, fi):
+        """'F64' / 'LOW' / 'IN' for a dtype expression, 'ABSENT' for None, None when it is not known"""
+        if node is None:
+            return "ABSENT"
+        if isinstance(node, ast.Name) and node.id not in env and node.id == "float":
+            return "F64"
+        d = dotted_name(node)
+        if d and d.split(".")[0] not in env:
+            full = self.repo.resolve_name(fi.module, d)
+            if full.startswith("numpy."):
+                nm = full.split(".")[-1]
+                return "F64" if nm in _F64_NAMES else ("LOW" if nm in _LOW_NAMES else None)
+        if isinstance(node, ast.Call) and call_name(node) == "dtype" and len(node.args) == 1 and not node.keywords:
+            return self.dtype_of(node.args[0], env, fi)
+        if isinstance(node, ast.Attribute) and node.attr == "dtype":
+            v = self.ev(node.value, env, fi)
+            return v.dt if (v.elts is None and v.dt in ("F64", "LOW", "IN")) else None
+        v = self.ev(node, env, fi)
+        if v.const is None:
+            return "ABSENT"
+        if isinstance(v.const, str):
+            return "F64" if v.const in _F64_NAMES else ("LOW" if v.const in _LOW_NAMES else None)
+        return None
+
+    def _as_array(self, v):
+        """the value as numpy makes an array of it"""
+        w = _dt_promote([v])
+        return _D("F64" if w.dt == "PY" else w.dt, src=w.src)
+
+    def _converted(self, v, dtnode, env, fi):
+        dt = self.dtype_of(dtnode, env, fi)
+        if dt == "ABSENT":
+            return self._as_array(v)
+        if dt == "IN":
+            return _D("IN", src=v.src)
+        return _D(dt, src=v.src)
+
+    # ---- expressions -----------------------------------------------------------------------------------------------------------
+    def ev(self, e, env, fi):
+        if e is None:
+            return _D(const=None)
+        if isinstance(e, ast.Constant):
+            if isinstance(e.value, (int, float)) and not isinstance(e.value, bool):
+                return _D("PY", const=e.value)
+            return _D(const=e.value)
+        if isinstance(e, ast.Name):
+            if e.id in env:
+                return env[e.id]
+            c = fi.module.consts.get(e.id)
+            if isinstance(c, (ast.Constant, ast.UnaryOp, ast.BinOp, ast.Attribute, ast.Name)) and (fi.module.name, e.id) not in self._cstack:
+                self._cstack.append((fi.module.name, e.id))         # module-level number: PI = np.pi, D2R = PI / 180.0
+                try:
+                    v = self.ev(c, {}, fi)
+                finally:
+                    self._cstack.pop()
+                return v if v.dt == "PY" or v.const is not _NOCONST else _DUNK
+            return _DUNK
+        if isinstance(e, (ast.Tuple, ast.List)):
+            if any(isinstance(x, ast.Starred) for x in e.elts):
+                for x in e.elts:
+                    self.ev(x.value if isinstance(x, ast.Starred) else x, env, fi)
+                return _DUNK
+            return _D(elts=[self.ev(x, env, fi) for x in e.elts])
+        if isinstance(e, ast.BinOp):
+            a, b = self.ev(e.left, env, fi), self.ev(e.right, env, fi)
+            if isinstance(e.op, (ast.Add, ast.Mult)) and (a.elts is not None or b.elts is not None):
+                return _DUNK                    # python sequence arithmetic
+            if isinstance(e.op, (ast.Add, ast.Sub, ast.Mult, ast.Div, ast.Pow)):
+                res = _dt_promote([a, b])
+                return self._site(fi, e, res)
+            if isinstance(e.op, (ast.Mod, ast.FloorDiv)):
+                return _dt_promote([a, b])
+            return _DUNK
+        if isinstance(e, ast.UnaryOp):
+            a = self.ev(e.operand, env, fi)
+            if isinstance(e.op, (ast.USub, ast.UAdd)) and a.elts is None:
+                if a.const is not _NOCONST and isinstance(a.const, (int, float)) and not isinstance(a.const, bool):
+                    return _D("PY", const=-a.const if isinstance(e.op, ast.USub) else a.const)
+                return _D(a.dt, src=a.src)
+            return _DUNK
+        if isinstance(e, ast.Compare):
+            self.ev(e.left, env, fi)
+            for c in e.comparators:
+                self.ev(c, env, fi)
+            return _DUNK
+        if isinstance(e, ast.BoolOp):
+            v = None
+            for x in e.values:
+                v = _dt_join(v, self.ev(x, env, fi))
+            return v
+        if isinstance(e, ast.IfExp):
+            r = self.truth(e.test, env, fi)
+            if r is True:
+                return self.ev(e.body, env, fi)
+            if r is False:
+                return self.ev(e.orelse, env, fi)
+            return _dt_join(self.ev(e.body, env, fi), self.ev(e.orelse, env, fi))
+        if isinstance(e, ast.Subscript):
+            base = self.ev(e.value, env, fi)
+            ix = e.slice
+            if base.elts is not None:
+                if isinstance(ix, ast.Constant) and isinstance(ix.value, int) and not isinstance(ix.value, bool) \
+                        and -len(base.elts) <= ix.value < len(base.elts):
+                    return base.elts[ix.value]
+                if isinstance(ix, ast.Slice):
+                    return _DUNK
+                self.ev(ix, env, fi)
+                return self._element(base) if base.elts else _DUNK
+            if not isinstance(ix, (ast.Constant, ast.Slice)):
+                for x in (ix.elts if isinstance(ix, ast.Tuple) else [ix]):
+                    if not isinstance(x, (ast.Constant, ast.Slice)):
+                        self.ev(x, env, fi)
+            return _D(base.dt if base.dt != "PY" else None, src=base.src)
+        if isinstance(e, ast.Attribute):
+            d = dotted_name(e)
+            if d and d.split(".")[0] not in env:
+                full = self.repo.resolve_name(fi.module, d)
+                if full in ("numpy.pi", "math.pi", "numpy.e", "math.e", "numpy.inf", "math.inf", "numpy.nan", "math.nan", "math.tau"):
+                    return _D("PY")
+                if full != d and full.startswith(fi.module.name + ".") and full[len(fi.module.name) + 1:] in fi.module.consts:
+                    return self.ev(ast.Name(id=full[len(fi.module.name) + 1:], ctx=ast.Load()), {}, fi)
+                return _DUNK
+            base = self.ev(e.value, env, fi)
+            if e.attr in ("T", "real", "flat") and base.elts is None:
+                return _D(base.dt if base.dt != "PY" else None, src=base.src)
+            return _DUNK
+        if isinstance(e, (ast.ListComp, ast.GeneratorExp)):
+            if len(e.generators) == 1 and not e.generators[0].ifs:
+                g = e.generators[0]
+                it = self.ev(g.iter, env, fi)
+                e1 = dict(env)
+                if it.elts is not None and len(it.elts) <= 16:
+                    out = []
+                    for x in it.elts:
+                        self.bind(g.target, x, e1, fi)
+                        out.append(self.ev(e.elt, e1, fi))
+                    return _D(elts=out)
+            return _DUNK
+        if isinstance(e, ast.Call):
+            return self.call(e, env, fi)
+        if isinstance(e, ast.Starred):
+            self.ev(e.value, env, fi)
+            return _DUNK
+        if isinstance(e, ast.NamedExpr):
+            v = self.ev(e.value, env, fi)
+            self.bind(e.target, v, env, fi)
+            return v
+        return _DUNK
+
+    def _site(self, fi, node, comp):
+        """a rounding operation whose computation dtype is `comp`; the worst context of a node is kept.  Returns the value of the
+        result: the result of a reported operation is marked, so that the operations it flows into do not repeat the report"""
+        sev = {"IN": 2, "LOW": 2, None: 1}.get(comp.dt, 0)
+        if sev == 2 and _REPORTED in comp.src:
+            sev = -1                     # downstream of an operation that is reported already
+        old = self.sites.get(id(node))
+        if old is None or old["sev"] < sev:
+            self.sites[id(node)] = {"fi": fi, "node": node, "comp": comp, "sev": sev}
+        if sev == 2:
+            return _D(comp.dt, src=comp.src | {_REPORTED})
+        return comp
+
+    def call(self, c, env, fi):
+        f = c.func
+        nm = call_name(c)
+        d = dotted_name(f)
+        shadow = d is not None and d.split(".")[0] in env
+        full = self.repo.resolve_name(fi.module, d) if d and not shadow else ""
+        starred = any(isinstance(a, ast.Starred) for a in c.args) or any(k.arg is None for k in c.keywords)
+        args = [self.ev(a.value if isinstance(a, ast.Starred) else a, env, fi) for a in c.args]
+        kws = {k.arg: self.ev(k.value, env, fi) for k in c.keywords if k.arg}
+        if starred:
+            return _DUNK
+        if full.startswith("numpy.") and full.count(".") == 1:
+            if nm in _DT_CONVERT and args:
+                dtn = kwarg(c, "dtype")
+                if dtn is None and len(c.args) >= 2 and nm != "require":
+                    dtn = c.args[1]
+                if dtn is None and nm == "require" and len(c.args) >= 2:
+                    dtn = c.args[1]
+                return self._converted(args[0], dtn, env, fi)
+            if nm in ("atleast_1d", "atleast_2d", "atleast_3d") and len(args) > 1:
+                return _D(elts=[self._as_array(a) for a in args])
+            if nm in _DT_KEEP and args:
+                if kwarg(c, "dtype") is not None:
+                    return self._converted(args[0], kwarg(c, "dtype"), env, fi)
+                return self._as_array(args[0])
+            if nm in _F64_NAMES and nm not in ("float", "d", "g"):
+                return _D("F64", src=args[0].src if args else frozenset())
+            if nm in _LOW_NAMES and nm not in ("f", "e"):
+                return _D("LOW", src=args[0].src if args else frozenset())
+            if nm in _DT_ROUNDING and args:
+                nin = 2 if nm in _DT_NIN2 else 1
+                ins = args[:nin]
+                if len(ins) < nin:
+                    return _DUNK
+                out = kwarg(c, "out")
+                outv = self.ev(out, env, fi) if out is not None else (args[nin] if len(args) > nin else None)
+                if outv is not None and outv.elts is not None:
+                    outv = self._element(outv) if outv.elts else None
+                comp = self._as_array(_dt_promote(ins)) if all(x.elts is None for x in ins) else _DUNK
+                forced = self.dtype_of(kwarg(c, "dtype"), env, fi) if kwarg(c, "dtype") is not None else "ABSENT"
+                if forced in ("F64", "LOW"):
+                    comp = _D(forced, src=comp.src)
+                elif forced != "ABSENT" or kwarg(c, "signature") is not None or kwarg(c, "sig") is not None:
+                    comp = _D(None, src=comp.src)
+                comp = self._site(fi, c, comp)
+                outn = out if out is not None else (c.args[nin] if len(c.args) > nin else None)
+                if _REPORTED in comp.src and isinstance(outn, ast.Name) and isinstance(env.get(outn.id), _D) and env[outn.id].elts is None:
+                    env[outn.id] = _D(env[outn.id].dt, src=env[outn.id].src | {_REPORTED})     # written in place by a reported operation
+                if outv is not None and outv.const is None:
+                    outv = None
+                if outv is not None:
+                    return _D(outv.dt if outv.dt != "PY" else None, src=outv.src | comp.src)
+                return comp
+            if nm in _DT_PROMOTE and args:
+                k = 3 if nm == "clip" else 2
+                vals = [a for a in args[:k] if a.const is not None or a.dt is not None]
+                return self._as_array(_dt_promote(vals)) if vals else _DUNK
+            if nm == "where" and len(args) == 3:
+                return self._as_array(_dt_promote(args[1:]))
+            if nm in _DT_SEQ and args:
+                return self._as_array(args[0])
+            if nm in ("zeros", "ones", "empty", "full", "arange", "linspace"):
+                dt = self.dtype_of(kwarg(c, "dtype"), env, fi)
+                return _D("F64" if dt == "ABSENT" else dt)
+            if nm in ("zeros_like", "ones_like", "empty_like", "full_like") and args:
+                return self._converted(args[0], kwarg(c, "dtype"), env, fi)
+            if nm in ("broadcast_arrays",) and args:
+                return _D(elts=[self._as_array(a) for a in args])
+            return _DUNK
+        if full.startswith("math."):
+            src = frozenset().union(*[a.src for a in args]) if args else frozenset()
+            return _D("PY", src=src)
+        if full and self.repo.has(full):
+            tgt = self.repo.func(full)
+            if len(self.stack) >= self.max_depth or tgt.qualname in self.stack or tgt.cls:
+                return _DUNK
+            params = [p for p in tgt.params if not p.startswith("*")]
+            if len(args) > len(params) or any(k not in params for k in kws):
+                return _DUNK
+            binds = dict(zip(params, args))
+            binds.update(kws)
+            return self.run(tgt, binds)
+        if isinstance(f, ast.Name) and not shadow:
+            if f.id == "float" and len(args) == 1:
+                return _D("PY", src=args[0].src)
+            if f.id in ("int", "len", "round"):
+                return _D("PY")
+            if f.id == "abs" and len(args) == 1 and args[0].elts is None:
+                return _D(args[0].dt, src=args[0].src)
+            if f.id in ("tuple", "list") and len(args) == 1 and args[0].elts is not None:
+                return args[0]
+            if f.id == "zip" and args and all(a.elts is not None for a in args) and len({len(a.elts) for a in args}) == 1:
+                return _D(elts=[_D(elts=list(t)) for t in zip(*[a.elts for a in args])])
+            return _DUNK
+        if isinstance(f, ast.Attribute) and not full:
+            recv = self.ev(f.value, env, fi)
+            if recv.elts is not None:
+                return _DUNK
+            if nm == "astype" and (c.args or kwarg(c, "dtype") is not None):
+                dt = self.dtype_of(kwarg(c, "dtype") or c.args[0], env, fi)
+                return _D(None if dt == "ABSENT" else dt, src=recv.src)
+            if nm in _DT_KEEP_METHODS and recv.dt in ("F64", "LOW", "IN") and kwarg(c, "dtype") is None and kwarg(c, "out") is None:
+                return _D(recv.dt, src=recv.src)
+            if nm == "view" and not c.args and not c.keywords and recv.dt in ("F64", "LOW", "IN"):
+                return _D(recv.dt, src=recv.src)
+            return _DUNK
+        return _DUNK
+
+
+def precision_rule(chk, repo, fi, tag, coords, pins):
+    """every rounding operation that the separation is computed with works in double precision whatever the caller's dtype"""
+    de = DtypeEval(repo)
+    binds = {p: _D("IN", src=frozenset([p])) for p in coords}
+    for k, v in pins.items():
+        if v is None:
+            binds[k] = _DUNK
+        elif isinstance(v, tuple):
+            binds[k] = _D(elts=[_D(const=x) for x in v])
+        else:
+            binds[k] = _D(const=v)
+    try:
+        de.run(fi, binds)
+    except RecursionError:
+        chk.ob("R08.12", tag + "::double-precision::operations-found", None, fi.where(), "dtype provenance: recursion too deep")
+        return
+    sites = sorted(de.sites.values(), key=lambda s: (s["fi"].qualname, getattr(s["node"], "lineno", 0), getattr(s["node"], "col_offset", 0)))
+    judged = [s for s in sites if s["sev"] in (0, 2) and s["comp"].src]      # operations on values derived from the coordinates
+    bad = [s for s in judged if s["sev"] == 2]
+    # an operation whose operand is another reported operation's result repeats the report: keep the first operation of each
+    # function (in source order) per chain, i.e. those none of whose sub-expressions is itself reported
+    badids = {id(s["node"]) for s in bad}
+    first = [s for s in bad if not any(id(x) in badids for x in ast.walk(s["node"]) if x is not s["node"])]
+    seen = set()
+    for s in first:
+        text = norm(s["node"])[:80]
+        key = "%s::double-precision::%s::%s" % (tag, s["fi"].name, text)
+        if key in seen:
+            continue
+        seen.add(key)
+        comp = s["comp"]
+        how = ("the caller's dtype: it reaches this operation from %s through dtype-preserving operations only (atleast_1d / asarray "
+               "without dtype, copies, indexing, python-number arithmetic), no conversion to float64 on the way"
+               % ("the argument(s) " + ", ".join("`%s`" % x for x in sorted(comp.src - {_REPORTED})) if comp.src - {_REPORTED} else "the coordinate arguments")) \
+            if comp.dt == "IN" else "a dtype below float64 that the code itself asks for"
+        chk.ob("R08.12", key, False, s["fi"].where(s["node"]),
+               "every rounding operation of the separation works in double precision whatever the dtype of the caller's arrays: `%s` in %s "
+               "is computed in %s; for float32 / float16 coordinates (exact doubles, e.g. catalogue columns) the conversion and sin / cos "
+               "are then evaluated in single precision and the separation is off by ~1e-5 degree (1e-11 is owed); force the dtype first "
+               "(np.array(x, dtype='f8', ...))" % (text, s["fi"].name, how))
+    if not bad:
+        chk.ob("R08.12", tag + "::double-precision::operations-found", True if judged else None, fi.where(),
+               "%d rounding operation(s) judged (%d more with a dtype that is not known): all in double precision whatever the caller passes"
+               % (len(judged), len(sites) - len(judged)))
 
 
 # --------------------------------------------------------------------------
